@@ -876,6 +876,14 @@ var simplifiers = []func(s *Step) bool{
 		}
 		return false
 	},
+	// no bookkeeping noise
+	func(s *Step) bool {
+		if s.Msg == nil || (s.Msg.HdrNext == 0 && !s.Msg.Junk) {
+			return false
+		}
+		s.Msg.HdrNext, s.Msg.Junk = 0, false
+		return true
+	},
 	// simple header
 	func(s *Step) bool {
 		if s.Msg == nil || (s.Msg.ISPI == 1 && s.Msg.RSPI == 2) {
